@@ -113,13 +113,19 @@ def judgeC13 (o : AppObs) : Verdict :=
     | some r => if isHttp ∧ !reply401Ok r then failv "401 response malformed" else pass true
     | none => pass false
 
-/-- C13 on a later segment of a TCP flow already identified as HTTP whose first request was complete and
-    answered: a complete request in the strict grammar must be answered with a well-formed 401 again -/
+/-- C13 on a later message of a TCP flow already identified as HTTP whose previous request was complete and
+    answered: a complete request in the strict grammar must be answered with a well-formed 401 again, and a message
+    that does not even start with one of the nine methods (in any letter case) must not get an HTTP response -/
 def judgeC13s (o : AppObs) : Verdict :=
-  if o.forced = some ID_HTTP ∧ strictRequest o.payload then
+  let isHttp : Bool := match o.reply with | some r => classify r = .http | none => false
+  if o.forced ≠ some ID_HTTP then pass false
+  else if strictRequest o.payload then
     match o.reply with
     | some r => if reply401Ok r then pass true else failv "401 response malformed (later request of a connection)"
     | none => failv "complete HTTP request on an answered HTTP connection not answered"
+  else if !nocaseMethodPrefix o.payload then
+    (if isHttp then failv "HTTP response to a message that does not start with a method (later message of an answered connection)"
+     else pass true)
   else pass false
 
 /-- identification string without the dispatcher's version prefix: `SSH-` digits/dots `-` … CR LF -/
